@@ -544,6 +544,14 @@ func genPlanOpt(seed uint64, prop string, cold bool) *Plan {
 		}
 		maxGap := []int{30, 150, 600, 3000}[r.intn(4)]
 		p.Preempt[victim] = []int64{int64(1 + r.intn(maxGap))}
+		if r.chance(0.7) {
+			// ... or only until a random later scheduling point
+			k := r.intn(3*nOps + 8)
+			for i := 0; i < k; i++ {
+				p.Sched = append(p.Sched, 0)
+			}
+			p.Sched = append(p.Sched, 0xFFFFFFFF)
+		}
 	case "rr":
 		q := int64([]int{3, 8, 25, 80, 300}[r.intn(5)])
 		for t := 0; t < nTasks; t++ {
